@@ -1,8 +1,10 @@
 /-
 C08 — driver.  One trace line = one unmarshal:
   u key=<k> fs=<0/1> fa=<0/1> T <type tokens> I <input tokens>  =>  ok <value dump> | err <class> | PANIC …
-Correspondence: the model's verdict and value equal the implementation's.  Monitor: an accepted result must
-satisfy `Spec.satisfies` (evaluated on the implementation's own value); a panic is a violation.
+Correspondence: the model's verdict and value equal the implementation's.  Monitors (on the implementation's own
+observation): an accepted result must satisfy `Spec.satisfies`; an input that is `Spec.complete` (all declared
+constraints met with correctly typed values) must be accepted; a panic is a violation.  Where the model answers
+`outside` (inherit, dotted keys, string-encoded containers) only the panic monitor applies.
 -/
 import GoZero.Base.Trace
 import GoZero.C08.Spec
@@ -209,7 +211,7 @@ def tyFeatures : Ty → List String
   | .prim (.uint _) => ["kind-uint"]
   | .prim (.float _) => ["kind-float"]
   | .prim .string => ["kind-string"]
-  | .ptr t => "ptr" :: tyFeatures t
+  | .ptr t => (if t.isContainer then "ptr-to-container" else "ptr") :: tyFeatures t
   | .slice t => "slice" :: tyFeatures t
   | .map t => "map" :: tyFeatures t
   | .struct fs => "struct" :: fieldsFeatures fs
@@ -229,6 +231,8 @@ def fieldsFeatures : Fields → List String
          ++ (if o.range.isSome then ["opt-range"] else [])
          ++ (if o.options.isEmpty then [] else ["opt-options"])
          ++ (if o.fromString then ["opt-string"] else [])
+         ++ (if o.inherit then ["opt-inherit"] else [])
+         ++ (if o.envVar.isEmpty then [] else ["opt-env(unset)"])
          ++ (if o.optional && !o.optionalDep.isEmpty && o.range.isSome then ["opt-dep+range"] else []))
     ++ tyFeatures t ++ fieldsFeatures rest
 end
@@ -255,6 +259,12 @@ def inputFeatures (c : Cfg) : Fields → Obj → List String
                  [if (Dec.eqv q r.left && r.leftInc) || (Dec.eqv q r.right && r.rightInc) then "in-range-at-closed-bound"
                   else "in-range-at-open-bound"] else [])
               ++ (if Spec.Range.contains r q then ["in-range-inside"] else ["in-range-outside"])
+              ++ (if Dec.eqv r.left maxFloat64.neg then
+                    ["in-range-halfopen-left"] ++ (if Dec.le q ⟨0, 0⟩ && Spec.Range.contains r q then
+                      ["in-range-halfopen-left-nonpositive-inside" ++ (if (derefKind t).isSome && t.isSlice = false &&
+                          (match t with | .ptr _ => true | _ => false) then "(ptr)" else "")] else [])
+                  else [])
+              ++ (if Dec.eqv r.right maxFloat64 then ["in-range-halfopen-right"] else [])
               ++ (if !o.optionalDep.isEmpty then ["in-dep+range-supplied"] else [])
             | some _, none => ["in-range-nonnumeric"]
             | none, _ => [])
@@ -283,36 +293,164 @@ def runLine (r : Report) (sec : Nat) (l : Line) : Report :=
     | .struct fs, .obj m => for f in dedup (inputFeatures op.cfg.repaired fs m) do r := r.addCover f
     | _, _ => r := r.addCover "in-toplevel-not-object"
     let impl := joinSp l.obs
+    let cmpl := Spec.complete op.cfg op.ty op.input
+    let outside := match res with | .error .outside => true | _ => false
+    if outside then r := r.addCover "model-outside(panic-monitor-only)"
     match l.obs with
     | "ok" :: vt =>
       match parseValT (vt.length + 1) vt with
       | some (v, []) =>
-        -- monitor: the property on the implementation's own result
-        if !Spec.satisfies op.cfg op.ty op.input v then
-          r := r.violation sec l.idx s!"accepted-but-constraints-violated op=[{joinSp l.op}] impl=[{impl}]"
-        match res with
-        | .ok mv => if !valAgree mv v then r := r.mismatch sec l.idx "ok(other value)" impl
-        | .error e => r := r.mismatch sec l.idx s!"err {e.name}" impl
+        if !outside then
+          r := r.addCover (if cmpl then "accepted-and-complete" else "accepted-not-complete")
+          -- monitor: the property on the implementation's own result
+          if !Spec.satisfies op.cfg op.ty op.input v then
+            r := r.violation sec l.idx s!"accepted-but-constraints-violated op=[{joinSp l.op}] impl=[{impl}]"
+          match res with
+          | .ok mv => if !valAgree mv v then r := r.mismatch sec l.idx "ok(other value)" impl
+          | .error e => r := r.mismatch sec l.idx s!"err {e.name}" impl
       | _ => r := r.mismatch sec l.idx "unparsable-value" impl
     | ["err", cls] =>
-      match res with
-      | .ok _ => r := r.mismatch sec l.idx "ok" impl
-      | .error e =>
-        if e.name ≠ cls then
-          -- Go iterates maps in random order: when several entries of a map fail, which error is reported
-          -- first is not determined; the verdict (reject) is compared, the class is not
-          if (tyFeatures op.ty).contains "map" then r := r.addCover "map-order-ambiguous-error"
-          else r := r.mismatch sec l.idx s!"err {e.name}" impl
+      if !outside then
+        -- monitor: the converse direction of the property
+        if cmpl then
+          r := r.violation sec l.idx s!"rejected-but-constraints-met op=[{joinSp l.op}] impl=[{impl}]"
+        else r := r.addCover "rejected-not-complete"
+        match res with
+        | .ok _ => r := r.mismatch sec l.idx "ok" impl
+        | .error e =>
+          if e.name ≠ cls then
+            -- Go iterates maps in random order: when several entries of a map fail, which error is reported
+            -- first is not determined; the verdict (reject) is compared, the class is not
+            if (tyFeatures op.ty).contains "map" then r := r.addCover "map-order-ambiguous-error"
+            else r := r.mismatch sec l.idx s!"err {e.name}" impl
     | "PANIC" :: _ =>
       r := r.violation sec l.idx s!"panic op=[{joinSp l.op}] impl=[{impl}]"
       match res with
       | .error .panic => pure ()
+      | .error .outside => pure ()
       | _ => r := r.mismatch sec l.idx (resultLabel res) impl
     | _ => r := r.mismatch sec l.idx "unparsable-observation" impl
     return r
 
+/-! ### `p`: one request through `httpx.Parse`
+  p T { Name ty t:<key>|<tag value> … } P { k s:v … } F { k [ s:v … ] … } H { k [ s:v … ] … } B <json value | none> -/
+
+structure POp where
+  fs : Fields
+  p : Obj
+  f : List (Str × List Str)
+  h : List (Str × List Str)
+  b : Option J
+
+def strOf : J → Option Str
+  | .str s => some s
+  | _ => none
+
+def multiOf : Obj → Option (List (Str × List Str))
+  | [] => some []
+  | (k, .arr l) :: rest =>
+    match l.mapM strOf, multiOf rest with
+    | some vs, some r => some ((k, vs) :: r)
+    | _, _ => none
+  | _ => none
+
+def parsePOp (toks : List String) : Option POp :=
+  match toks with
+  | "p" :: "T" :: rest =>
+    match parseTyT (rest.length + 1) rest with
+    | some (.struct fs, "P" :: r1) =>
+      match parseJT (r1.length + 1) r1 with
+      | some (.obj p, "F" :: r2) =>
+        match parseJT (r2.length + 1) r2 with
+        | some (.obj f, "H" :: r3) =>
+          match parseJT (r3.length + 1) r3 with
+          | some (.obj h, "B" :: r4) =>
+            match multiOf f, multiOf h with
+            | some f', some h' =>
+              if r4 = ["none"] then some { fs := fs, p := p, f := f', h := h', b := none }
+              else match parseJT (r4.length + 1) r4 with
+                | some (j, []) => some { fs := fs, p := p, f := f', h := h', b := some j }
+                | _ => none
+            | _, _ => none
+          | _ => none
+        | _ => none
+      | _ => none
+    | _ => none
+  | _ => none
+
+def fieldKeyOf (tag : Option Str) : Str := match tag with | some tv => (splitTag tv).1 | none => []
+
+/-- the part of a `Parse` result that the unmarshaler with tag key `key` is responsible for (zero elsewhere) -/
+def viewVals (key : Str) : Fields → VFields → VFields
+  | .cons n tag t rest, .cons _ v r => .cons n (if fieldKeyOf tag = key then v else zero t) (viewVals key rest r)
+  | _, _ => .nil
+
+def keyCover : Fields → List String
+  | .nil => []
+  | .cons _ tag t rest => ("http-field-" ++ String.ofList (fieldKeyOf tag)) :: (tyFeatures t ++ keyCover rest)
+
+def runPLine (r : Report) (sec : Nat) (l : Line) : Report :=
+  match parsePOp l.op with
+  | none => r.mismatch sec l.idx "bad-op" (joinSp l.op)
+  | some op => Id.run do
+    let mut r := { r with ops := r.ops + 1 }
+    let res := httpParse false op.fs op.p op.f op.h op.b
+    let vp := viewFields "path".toList op.fs
+    let vf := viewFields "form".toList op.fs
+    let vh := viewFields "header".toList op.fs
+    let vj := viewFields "json".toList op.fs
+    let fObj := formParams op.f
+    let hObj := headerParams op.h
+    let body := op.b.getD (.obj [])
+    r := r.addCover "mode-httpx.Parse"
+    r := r.addCover (match res with | .ok _ => "http-accept" | .error e => "http-reject-" ++ e.name)
+    for f in dedup (keyCover op.fs) do r := r.addCover f
+    if op.b.isSome then r := r.addCover "http-json-body"
+    if op.f.any (fun kv => kv.2.length > 1) then r := r.addCover "http-form-multi-valued"
+    if op.f.any (fun kv => kv.2.any (·.isEmpty)) then r := r.addCover "http-form-empty-value"
+    if op.h.any (fun kv => kv.2.length > 1) then r := r.addCover "http-header-multi-valued"
+    for f in dedup (inputFeatures (httpCfgPath false) vp op.p ++ inputFeatures (httpCfgForm false) vf fObj
+        ++ inputFeatures (httpCfgHeader false) vh hObj
+        ++ (match body with | .obj m => inputFeatures (httpCfgJson false) vj m | _ => [])) do r := r.addCover f
+    let cmpl := Spec.okFields (httpCfgPath false) vp op.p && Spec.okFields (httpCfgForm false) vf fObj
+      && Spec.okFields (httpCfgHeader false) vh hObj && Spec.complete (httpCfgJson false) (.struct vj) body
+    let outside := match res with | .error .outside => true | _ => false
+    if outside then r := r.addCover "model-outside(panic-monitor-only)"
+    let impl := joinSp l.obs
+    match l.obs with
+    | "ok" :: vt =>
+      match parseValT (vt.length + 1) vt with
+      | some (.struct vs, []) =>
+        if !outside then
+          r := r.addCover (if cmpl then "accepted-and-complete" else "accepted-not-complete")
+          let sat := Spec.satFields (httpCfgPath false) vp op.p (viewVals "path".toList op.fs vs)
+            && Spec.satFields (httpCfgForm false) vf fObj (viewVals "form".toList op.fs vs)
+            && Spec.satFields (httpCfgHeader false) vh hObj (viewVals "header".toList op.fs vs)
+            && Spec.satisfies (httpCfgJson false) (.struct vj) body (.struct (viewVals "json".toList op.fs vs))
+          if !sat then
+            r := r.violation sec l.idx s!"accepted-but-constraints-violated op=[{joinSp l.op}] impl=[{impl}]"
+          match res with
+          | .ok mv => if !vfAgree mv vs then r := r.mismatch sec l.idx "ok(other value)" impl
+          | .error e => r := r.mismatch sec l.idx s!"err {e.name}" impl
+      | _ => r := r.mismatch sec l.idx "unparsable-value" impl
+    | ["err", cls] =>
+      if !outside then
+        if cmpl then
+          r := r.violation sec l.idx s!"rejected-but-constraints-met op=[{joinSp l.op}] impl=[{impl}]"
+        else r := r.addCover "rejected-not-complete"
+        match res with
+        | .ok _ => r := r.mismatch sec l.idx "ok" impl
+        | .error e =>
+          if e.name ≠ cls then
+            if (keyCover op.fs).contains "map" then r := r.addCover "map-order-ambiguous-error"
+            else r := r.mismatch sec l.idx s!"err {e.name}" impl
+    | "PANIC" :: _ =>
+      r := r.violation sec l.idx s!"panic op=[{joinSp l.op}] impl=[{impl}]"
+    | _ => r := r.mismatch sec l.idx "unparsable-observation" impl
+    return r
+
 def runSection (r : Report) (s : Section) : Report :=
-  s.lines.foldl (fun r l => runLine r s.idx l) r
+  s.lines.foldl (fun r l => if l.op.head? = some "p" then runPLine r s.idx l else runLine r s.idx l) r
 
 def driver (secs : List Section) : Report := secs.foldl runSection {}
 
